@@ -176,7 +176,9 @@ contract('MatlabWrapper.wrap_namespace',
                              'heap:backup', 'alloc'],
          loops={0: dict(LOOP, modifies=LOOP_MOD + ['list(self.content)', 'list(self.includes)', 'list(self.classes)',
                                                    'dict(self.classes_elems)', 'heap:backup', 'alloc'])},
-         **KEEP)
+         ghost=GHOST, requires=KEEP['requires'] + ['not same(self.wrapper_map, self.classes_elems)'],
+         ensures=KEEP['ensures'],
+         raises={'TypeError': None})   # wrap_instantiated_class returns None for an ignored global-scope class (C15 finding)
 
 contract('MatlabWrapper.add_class', params={'instantiated_class': 'ref:InstantiatedClass'}, returns='none',
          modifies=['list(self.classes)', 'dict(self.classes_elems)'])
